@@ -63,7 +63,7 @@ type step struct {
 	Out  bool       `json:"out,omitempty"`
 	Size uint32     `json:"size,omitempty"`
 	C    *[4]uint64 `json:"c,omitempty"`
-	Sel  int        `json:"sel,omitempty"` // live: bit 0 time, 1 sip, 2 dip, 3 dport, 4 proto
+	Sel  int        `json:"sel,omitempty"` // live: bit 0 time, 1 sip, 2 dip, 3 dport, 4 proto, 5 iface
 	Cond *tree      `json:"cond,omitempty"`
 }
 
@@ -248,7 +248,7 @@ type qres struct {
 
 func selQuery(sel int) string {
 	var as []string
-	for i, n := range []string{"time", "sip", "dip", "dport", "proto"} {
+	for i, n := range []string{"time", "sip", "dip", "dport", "proto", "iface"} {
 		if sel&(1<<i) != 0 {
 			as = append(as, n)
 		}
@@ -600,10 +600,10 @@ func fixedCases() []input {
 	}
 	var cs []input
 	// the suspected defects, one by one
-	cs = append(cs, with("fixed", true, cat(traffic, []step{live(sSip, nil)})...))                                        // two flows of one sip
-	cs = append(cs, with("fixed", false, cat(traffic, []step{live(sSip, nil), live(sAll, nil)})...))                      // no interface directory yet
-	cs = append(cs, with("fixed", true, cat(traffic, []step{live(sAll, leaf("snet", "=", "10.0.0.0/31"))})...))           // key mutation (C09)
-	cs = append(cs, with("fixed", true, cat(traffic, []step{live(sSip|sDip, leaf("snet", "=", "10.0.0.0/31"))})...))      //
+	cs = append(cs, with("fixed", true, cat(traffic, []step{live(sSip, nil)})...))                                                // two flows of one sip
+	cs = append(cs, with("fixed", false, cat(traffic, []step{live(sSip, nil), live(sAll, nil)})...))                              // no interface directory yet
+	cs = append(cs, with("fixed", true, cat(traffic, []step{live(sAll, leaf("snet", "=", "10.0.0.0/31"))})...))                   // key mutation (C09)
+	cs = append(cs, with("fixed", true, cat(traffic, []step{live(sSip|sDip, leaf("snet", "=", "10.0.0.0/31"))})...))              //
 	cs = append(cs, with("fixed", true, cat(traffic, []step{live(sDport, nil), live(sProto, nil), live(sDport|sProto, nil)})...)) // v4 and v6 share rows
 	cs = append(cs, with("fixed", true, cat(traffic, []step{live(sDip, nil), live(sSip|sDport, nil)})...))
 	// live + stored: merged per group
@@ -622,6 +622,52 @@ func fixedCases() []input {
 	// conditions on attributes that are not selected, both families
 	cs = append(cs, with("fixed", true, cat(traffic, []step{live(sSip, leaf("dport", "=", "53")), live(sDport, and(leaf("proto", "=", "17"), not(leaf("sip", "=", "10.0.0.0")))), live(sProto, leaf("host", "=", "2001:db8::1")), live(sSip, leaf("net", "!=", "10.0.0.0/31"))})...))
 	cs = append(cs, with("fixed", true, cat(traffic, []step{live(sDip|sProto, or(leaf("dnet", "=", "2001:db8::/64"), leaf("dip", "=", "10.0.0.8"))), live(sAll, leaf("port", ">=", "443"))})...))
+	// groups of flows that differ in exactly ONE key field (sip, dip, dport, proto 6 vs 17, source port),
+	// IPv4 and IPv6, held in memory AND stored (a write-out in between); every one of the 16 subsets of
+	// {sip,dip,dport,proto} is queried without a condition, with a condition, and with time / iface
+	ob := []string{"10.0.0.1", "10.0.0.2", "10.0.0.9", "10.0.0.8", "2001:db8::1", "2001:db8::2", "2001:db8::3"}
+	ok := []keySpec{
+		{0, 2, 0, 53, 17},     // base
+		{1, 2, 0, 53, 17},     // other sip
+		{0, 3, 0, 53, 17},     // other dip
+		{0, 2, 0, 443, 17},    // other dport
+		{0, 2, 0, 53, 6},      // other proto
+		{0, 2, 40000, 53, 17}, // other source port only
+		{4, 5, 0, 53, 17},     // IPv6 base
+		{4, 5, 0, 53, 6},      // IPv6 other proto
+		{4, 6, 0, 53, 17},     // IPv6 other dip
+	}
+	var all []step
+	for k := range ok {
+		all = append(all, pkt(k, k%2 == 0, uint32(100+k)))
+	}
+	again := []step{pkt(0, false, 11), pkt(4, true, 13), pkt(5, false, 17), pkt(7, true, 19), pkt(3, false, 23)}
+	conds := []*tree{leaf("dport", "<=", "443"), not(leaf("sip", "=", "10.0.0.2")), or(leaf("proto", "=", "17"), leaf("net", "=", "2001:db8::/64")), leaf("dip", "!=", "10.0.0.8")}
+	for variant := 0; variant < 3; variant++ {
+		for g := 0; g < 4; g++ {
+			var lives []step
+			for j := 0; j < 4; j++ {
+				sel := (g*4 + j) << 1 // bits 1..4
+				var c *tree
+				switch variant {
+				case 1:
+					c = conds[j]
+				case 2:
+					if j%2 == 0 {
+						sel |= sTime
+					} else {
+						sel |= 32 | sTime
+					}
+				}
+				if sel == 0 {
+					sel = sTime
+				}
+				lives = append(lives, live(sel, c))
+			}
+			cs = append(cs, input{Addrs: ob, Keys: ok, PreDir: g%2 == 0, Kind: "oneoff",
+				Steps: cat(all, lives[:2], []step{rot()}, again, lives)})
+		}
+	}
 	return cs
 }
 
@@ -688,13 +734,40 @@ func gen(r *vhlib.Rand, i int, o vhlib.Opts) any {
 	seen := map[keySpec]bool{}
 	for j := 0; j < nk; j++ {
 		var k keySpec
-		if n6 > 0 && (n4 == 0 || r.Chance(35)) {
+		variant := len(in.Keys) > 0 && r.Chance(55)
+		if variant {
+			// a variant of an existing flow differing in exactly one field
+			k = vhlib.Pick(r, in.Keys)
+			fam := func(i int) int { // another address of the same family
+				if i < n4 {
+					return r.Intn(n4)
+				}
+				return n4 + r.Intn(n6)
+			}
+			switch r.Intn(5) {
+			case 0:
+				k.Sip = fam(k.Sip)
+			case 1:
+				k.Dip = fam(k.Dip)
+			case 2:
+				k.Dport = vhlib.Pick(r, []int{53, 443, ports[0], ports[1]})
+			case 3:
+				k.Proto = map[int]int{6: 17, 17: 6}[k.Proto]
+				if k.Proto == 0 {
+					k.Proto = vhlib.Pick(r, []int{6, 17})
+				}
+			default:
+				k.Sport = vhlib.Pick(r, []int{0, 40000, 40001})
+			}
+		} else if n6 > 0 && (n4 == 0 || r.Chance(35)) {
 			k.Sip, k.Dip = n4+r.Intn(n6), n4+r.Intn(n6)
 		} else {
 			k.Sip, k.Dip = r.Intn(n4), r.Intn(n4)
 		}
-		k.Sport = vhlib.Pick(r, []int{0, 0, 40000, 40001})
-		k.Dport, k.Proto = vhlib.Pick(r, ports), vhlib.Pick(r, protos)
+		if !variant {
+			k.Sport = vhlib.Pick(r, []int{0, 0, 40000, 40001})
+			k.Dport, k.Proto = vhlib.Pick(r, ports), vhlib.Pick(r, protos)
+		}
 		if seen[k] {
 			continue
 		}
@@ -727,9 +800,18 @@ func gen(r *vhlib.Rand, i int, o vhlib.Opts) any {
 				continue
 			}
 			nlive++
-			sel := vhlib.Pick(r, []int{sSip, sDip, sDport, sProto, sSip | sDip, sDport | sProto, sSip | sDport, sDip | sProto, sAll, sAll, sSip | sDip | sDport, sTime | sSip, sTime, sTime | sAll})
+			sel := r.Intn(16) << 1 // every subset of {sip,dip,dport,proto}
+			if r.Chance(25) {
+				sel |= sTime
+			}
+			if sel == 0 {
+				sel = sTime
+			}
+			if r.Chance(15) {
+				sel |= 32 // iface
+			}
 			var c *tree
-			if r.Chance(60) {
+			if r.Chance(50) {
 				c = genTree(r, 2, in.Addrs)
 			}
 			in.Steps = append(in.Steps, live(sel, c))
